@@ -27,9 +27,28 @@ Faults == {"none",
            "set_with_variable", "set_nested", "set_mixed_types", "check_no_queries", "check_unknown_kind",
            "deep_array_nesting", "huge_symbol_table", "payload_garbage", "payload_empty"}
 
+\* ADVERSARIAL BUT WELL-FORMED contents: expressions whose operands are the extreme values of the term
+\* types.  They pass every validation stage; evaluating them must yield a value or an error ("run").
+\* fault = "eval": the binary operator `op` applied to a and b, written in the expression ("literal") or
+\* supplied by two facts and joined ("fact"); fault = "eval_snippet": one of the expressions below.
+EvalOps == {"+", "-", "*", "/", "&", "|", "^", "<", "<=", ">", ">=", "===", "!=="}
+Extremes == {"-9223372036854775808", "-9223372036854775807", "-1", "0", "1", "2", "9223372036854775807"}
+EvalWhere == {"literal", "fact"}
+EvalSnippets == {
+    "\"a\".matches(\"(\")", "\"a\".matches(\"a{1000}{1000}{1000}\")", "\"aaaaaaaaaaaaaaaaaaaaaaaa\".matches(\"(a*)*b\")",
+    "[1, 2].get(99) == null", "[1].get(-1) == null", "[1].get(9223372036854775807) == null", "{\"a\": 1}.get(1) == null",
+    "\"abc\".length() / 0 == 0", "1.length() == 1", "{1}.contains({1})", "hex:.length() == 0", "\"\".length() == 0",
+    "[1].all($p -> $p.length() > 0)", "[1].any($p -> [2].any($p -> true))", "[[1]].any($p -> $p.any($q -> $q / 0 == 1))",
+    "(1 / 0 == 1).try_or(true)", "1 / 0 == 1 || true", "true || 1 / 0 == 1", "false && 1 / 0 == 1",
+    "9999-12-31T23:59:59Z > 0001-01-01T00:00:00Z", "1.type() == \"integer\"", "null == null", "{}.length() == 0",
+    "[].length() == 0", "{1, 2}.intersection({2}).length() == 1", "\"a\" + \"b\" == \"ab\"",
+    "\"a\".contains(\"\")", "\"\".starts_with(\"\")", "!true", "(!false).type() == \"bool\"",
+    "1.extern::nope()", "1.extern::nope(2)", "{\"a\": [1, {\"b\": null}]}.get(\"a\").get(1).get(\"b\") == null"}
+
 \* the latest stage at which the fault may surface as an error ("never": harmless, must be served)
 CaughtAt(f) ==
     CASE f = "none" -> "never"
+      [] f \in {"eval", "eval_snippet"} -> "run"
       [] f \in {"redeclares_default_symbol", "redeclares_earlier_symbol", "duplicate_public_key", "payload_garbage", "deep_array_nesting"} -> "decode"
       [] f \in {"expr_empty", "expr_binary_underflow", "expr_leftover", "expr_closure_first", "closure_two_params", "expr_ffi_name_out_of_range"} -> "run"
       [] f \in {"check_no_queries", "huge_symbol_table", "payload_empty", "set_mixed_types", "version_absent"} -> "never"   \* unspecified: served or refused, never a crash
@@ -47,7 +66,10 @@ Ops == {"print", "print_block_source", "block_version", "block_symbols", "block_
 Indices == {0, 1, 2, 3, 99}     \* 99 stands for usize::MAX
 
 VARIABLES c
-Init == c \in {[fault |-> f, pos |-> p] : f \in Faults, p \in Positions}
+Init == \/ c \in {[fault |-> f, pos |-> p] : f \in Faults, p \in Positions}
+        \/ c \in {[fault |-> "eval", pos |-> p, op |-> o, a |-> a, b |-> b, where |-> w] :
+                     p \in Positions, o \in EvalOps, a \in Extremes, b \in Extremes, w \in EvalWhere}
+        \/ c \in {[fault |-> "eval_snippet", pos |-> p, src |-> x] : p \in Positions, x \in EvalSnippets}
 Next == UNCHANGED c
 Spec == Init /\ [][Next]_c
 
